@@ -55,7 +55,9 @@ def _rand_res(rng, inner, bad=False):
     mode = rng.choice(["scalar", "vec", "vec"])
     f = [_fr(Fr(rng.choice(FACTORS)))] * n if mode == "scalar" else [_fr(Fr(rng.choice(FACTORS))) for _ in range(n)]
     o = [_fr(Fr(rng.choice(OFFSETS)))] * n if rng.random() < 0.4 else [_fr(Fr(rng.choice(OFFSETS))) for _ in range(n)]
-    e = {"k": "res", "w": inner, "f": f, "o": o, "fscalar": mode == "scalar" and not bad, "oscalar": False}
+    e = {"k": "res", "w": inner, "f": f, "o": o, "fscalar": mode == "scalar" and not bad,
+         "oscalar": (not bad) and all(x == o[0] for x in o) and rng.random() < 0.7,
+         "ints": rng.random() < 0.6}         # hand whole numbers over as Python ints (integer-typed arrays inside the wrapper)
     if bad:
         if rng.random() < 0.5:
             e["f"] = f + [_fr(Fr(2))]
@@ -104,6 +106,13 @@ def _rand_comp(rng, bad=None):
             m["shape"][a] = shp[ax]
             m["bounds"][a] = list(bnd[ax])
             slot += 1
+    if bad is None and rng.random() < 0.25:
+        ones = [i for i, m in enumerate(members) if len(m["A"]) == 1]
+        if ones:
+            i = rng.choice(ones)
+            twin = _lin(rng, 1, tag=9, with_shape=True, with_bounds=True)
+            twin["shape"], twin["bounds"] = list(members[i]["shape"]), [list(b) for b in members[i]["bounds"]]
+            members[i] = {"k": "comp", "ws": [members[i], twin], "mapping": [0, 0]}     # one pixel axis, two world axes
     e = {"k": "comp", "ws": members, "mapping": mapping}
     if bad == "maplen":
         e["mapping"] = mapping + [0]
@@ -200,8 +209,9 @@ def build_impl(e, fam=None):
         return make_probe(e["A"], e["b"], e["shape"], e["bounds"], e["tw"], e["tp"])
     if e["k"] == "res":
         inner = build_impl(e["w"], fam)
-        f = [float(_q(x)) for x in e["f"]]
-        o = [float(_q(x)) for x in e["o"]]
+        num = (lambda x: int(_q(x)) if (e.get("ints") and _q(x).denominator == 1) else float(_q(x)))
+        f = [num(x) for x in e["f"]]
+        o = [num(x) for x in e["o"]]
         return ResampledLowLevelWCS(inner, f[0] if e.get("fscalar") else f, o[0] if e.get("oscalar") else o)
     if e["k"] == "reo":
         return ReorderedLowLevelWCS(build_impl(e["w"], fam), e["po"], e["wo"])
@@ -410,8 +420,9 @@ def _run_family(case, W, exc):
     p = [rng.randint(0, 12, size=(2, 3)) / 4.0 for _ in range(n)]
     got = W.pixel_to_world_values(*p)
     if e["k"] == "res":
-        f = [float(_q(x)) for x in e["f"]]
-        o = [float(_q(x)) for x in e["o"]]
+        num = (lambda x: int(_q(x)) if (e.get("ints") and _q(x).denominator == 1) else float(_q(x)))
+        f = [num(x) for x in e["f"]]
+        o = [num(x) for x in e["o"]]
         exp = inner.pixel_to_world_values(*[p[i] * f[i] + o[i] for i in range(n)])
     else:
         ip = [None] * n
